@@ -1,0 +1,28 @@
+// Verification hooks. This module only exists when the crate is compiled with
+// `--cfg parity_db_verif`; normal builds do not contain any of it.
+
+use std::sync::atomic::{AtomicBool, AtomicUsize, Ordering};
+
+/// Worker loops are driven by an external scheduler (not by threads spawned in `Db::open`):
+/// keep commit/log queue throttling enabled although `with_background_thread` is false.
+pub static EXTERNAL_WORKERS: AtomicBool = AtomicBool::new(false);
+
+/// Never spawn worker threads from `Db::open`, whatever the options say (used when library
+/// code such as `migrate` opens databases with default options inside a single-threaded run).
+pub static SUPPRESS_WORKER_THREADS: AtomicBool = AtomicBool::new(false);
+
+static YIELD_HOOK: AtomicUsize = AtomicUsize::new(0);
+
+/// Install a callback invoked at named hand-over points. Default: none.
+pub fn set_yield_hook(f: Option<fn(&'static str)>) {
+	YIELD_HOOK.store(f.map_or(0, |f| f as usize), Ordering::SeqCst);
+}
+
+#[inline]
+pub fn yield_point(name: &'static str) {
+	let p = YIELD_HOOK.load(Ordering::Relaxed);
+	if p != 0 {
+		let f: fn(&'static str) = unsafe { std::mem::transmute(p) };
+		f(name)
+	}
+}
